@@ -12,7 +12,10 @@ const SITE_PARSE: &str = "HpoTermId::try_from(&str)";
 pub enum Expect {
     Ok(u32),
     Err,
-    DontCare,
+    /// '+' directly after the prefix followed by an ASCII digit run whose value fits u32: the statement does not say
+    /// whether the sign is part of "an unsigned decimal" (u32::from_str accepts it). Allowed: Err, or Ok of exactly
+    /// this value - never another id, never a panic.
+    Signed(u32),
 }
 
 pub fn reference(s: &str) -> Expect {
@@ -36,7 +39,16 @@ pub fn reference(s: &str) -> Expect {
     }
     if let Some(r) = rest.strip_prefix('+') {
         if !r.is_empty() && r.bytes().all(|b| b.is_ascii_digit()) {
-            return Expect::DontCare; // u32::from_str accepts a sign; the property does not say
+            // u32::from_str accepts a sign; the property does not say. Under BOTH readings a value beyond u32::MAX
+            // is an error, and under the accepting reading the id is the number behind the sign.
+            let mut v: u128 = 0;
+            for b in r.bytes() {
+                v = v * 10 + (b - b'0') as u128;
+                if v > u32::MAX as u128 {
+                    return Expect::Err;
+                }
+            }
+            return Expect::Signed(v as u32);
         }
     }
     Expect::Err
@@ -50,7 +62,18 @@ fn check_string(ctx: &mut Ctx, s: &str) {
     let got = guard(|| HpoTermId::try_from(s));
     let (sig, obs): (Option<&str>, String) = match (&exp, &got) {
         (_, Err(msg)) => (Some("panics instead of returning"), format!("panic: {msg}")),
-        (Expect::DontCare, Ok(_)) => (None, String::new()),
+        (Expect::Signed(_), Ok(Err(_))) => {
+            ctx.bump("refused: '+' sign before the digits (statement silent)", 1);
+            (None, String::new())
+        }
+        (Expect::Signed(v), Ok(Ok(id))) => {
+            if id.as_u32() == *v {
+                ctx.bump("accepted: '+' sign before the digits (statement silent)", 1);
+                (None, String::new())
+            } else {
+                (Some("accepts a '+' sign but returns a different id than the decimal number behind it"), format!("Ok({})", id.as_u32()))
+            }
+        }
         (Expect::Ok(v), Ok(Ok(id))) => {
             if id.as_u32() == *v {
                 // (how `id == text` and `From<String>` treat a NON-canonical spelling that try_from accepts - "HP:118",
@@ -125,7 +148,7 @@ pub const ALPHABET: [&str; 15] = ["H", "P", ":", "0", "1", "9", "+", "-", " ", "
 pub fn run(ctx: &mut Ctx) {
     ctx.rule = "ids: every id 0..10^7 in blocks of 10^4 plus u32 borders; strings: every string of <= L symbols over {H,P,:,0,1,9,+,-,space,é,€,😀,\\n,\\t,NBSP} (L=6 quick, 7 thorough) plus digit strings around u32::MAX, digit runs of every length 1..=10 with one or two positions replaced, zero-led runs with radix letters, long inputs; a case is distinct by construction; non-trivial = string of >= 4 bytes (passes the length guard) or an id".into();
     ctx.assumptions = vec![
-        "a '+' sign directly after the 3-byte prefix is don't-care (u32::from_str accepts it, the property is silent)".into(),
+        "a '+' sign directly after the 3-byte prefix followed by ASCII digits only is don't-care between Err and Ok(the number behind the sign) (u32::from_str accepts it, the property is silent); Ok of any other id is a violation, and a number beyond u32::MAX behind the sign must be Err under both readings".into(),
         "the 3-byte prefix itself is not inspected (the property only constrains the text after it)".into(),
         "`id == text` and `From<String>` are exercised on the canonical rendering of every id only; what they do with another spelling that try_from accepts, the integer conversions From<u64 | usize | u16> / to_usize and the order of ids are not part of the statement".into(),
     ];
@@ -365,7 +388,7 @@ pub fn run(ctx: &mut Ctx) {
     // ---- Space F: a leading zero followed by a LETTER, and the other spellings a "smart" integer parser accepts
     // (radix prefixes 0x / 0b / 0o, digit separators, type suffixes, exponents): the digit run of Space D has its only
     // '0' at index 7 and Space B's alphabet has no letter besides H and P, so "HP:0x10" was never formed
-    ctx.space("strings/zero-led-runs-and-radix-prefixes", "prefixes {HP:, XYZ, 3-byte euro sign} x three zero-led runs of every length 1..=10 (0123456789 cut to the length; 0 followed by ones; all zeros) x every single position replaced by each of the 128 ASCII bytes, and positions (1, p) replaced by (x|X|b|B|o|O, a|f|F|_) for every p >= 2; plus 60 literal spellings (0x10, 0X1F, 0b11, 0o17, 1_000, 1e3, 10u32, #10, 0x, ...) behind the same prefixes; one case per (prefix, length) and one for the literals");
+    ctx.space("strings/zero-led-runs-and-radix-prefixes", "prefixes {HP:, XYZ, 3-byte euro sign} x three zero-led runs of every length 1..=10 (0123456789 cut to the length; 0 followed by ones; all zeros) x every single position replaced by each of the 128 ASCII bytes, and positions (1, p) replaced by (x|X|b|B|o|O, a|f|F|_) for every p >= 2; plus 95 literal spellings (0x10, 0X1F, 0b11, 0o17, 1_000, 1e3, 10u32, #10, 0x, ...; a '+' sign followed by 10 and more digits around u32::MAX and around 2^32 / 2^64 / 2^128 + small, doubled and mixed signs) behind the same prefixes; one case per (prefix, length) and one for the literals");
     for prefix in ["HP:", "XYZ", "\u{20ac}"] {
         for len in 1..=10usize {
             if !ctx.take() {
@@ -405,6 +428,11 @@ pub fn run(ctx: &mut Ctx) {
         let literals = [
             "0x10", "0X1F", "0x0", "0x", "0xff", "0xFFFFFFFF", "0x00000076", "0b11", "0B11", "0b0", "0b", "0o17", "0O17", "0o0", "0o", "017", "0017", "00x10", "x10", "h10", "10h", "1_000", "1_0", "_1", "1_", "0_0", "1e3", "1E3", "1e0", "1.0", "1.", ".1", "10u32", "10U", "10u", "10i32", "10L", "10l",
             "#10", "$10", "&h10", "0d10", "0t10", "1'000", "1,000", "1 000", "0x1_0", "0b1_1", "١٠", "0x١", "0xg", "0b2", "0o8", "0x-1", "-0x1", "+0x10", "0+1", "1+0", "0x+1", "0e0",
+            // a '+' sign followed by ten and more digits (Spaces B / D / F never form that: their runs of <= 10 symbols
+            // include the sign): the value behind the sign at and beyond u32::MAX, values that wrap to a small number
+            // in 32 / 64 / 128 bits, leading zeros, doubled and mixed signs
+            "+4294967295", "+4294967296", "+4294967297", "+4294967413", "+04294967295", "+04294967296", "+00000000004294967295", "+00000000004294967296", "+99999999999", "+0000000000001", "+0000000000118", "+18446744073709551617", "+18446744073709551734",
+            "+340282366920938463463374607431768211457", "+1000000000", "+3999999999", "+4000000000", "+4294967290", "+9999999999", "++1", "+-1", "-+1", "--1", "+", "+ 1", "+1 ", "+1+", "1+", "-0", "-1", "-4294967295", "+0", "+00", "+0000000", "+0000118",
         ];
         let mut n = 0u64;
         for prefix in ["HP:", "XYZ", "\u{20ac}"] {
